@@ -1592,7 +1592,7 @@ pub mod mem {
         pub ctx: usize,
         pub stamp: u32,
     }
-    pub const NPREV: usize = 4;
+    pub const NPREV: usize = 8;
     pub static mut PREV_CALLS: [PrevCall; NPREV] = [PrevCall {
         fptr: 0,
         three_arg: false,
